@@ -37,6 +37,7 @@ EXTENDS Integers, Sequences, FiniteSets, TLC, Json
 CONSTANTS
   MaxLevel,        \* operator levels explored (2 = "depth 3" of the property: leaves count as depth 1)
   SampleMod,       \* 1: every tree;  n > 1: trees with 2 operator levels are sampled 1 in n
+  VarMod,          \* the twinned / shipped-leaf / shipped-constant forms of trees with 2 or more operator levels: 1 in VarMod
   DeepMod,         \* trees with more than 2 operator levels are sampled 1 in DeepMod
   SampleSeed,
   MInitUseCache,   \* TRUE: CompositeParameter initialises its _use_cache slot (repaired); FALSE: pinned
@@ -45,6 +46,8 @@ CONSTANTS
   MEqFlat,         \* TRUE (mutant): __eq__ compares the flattened traversals (operators in pre-order, leaves left to right)
   MReuseEqual,     \* TRUE (mutant): when the right operand compares equal to the left one its value is not computed but reused
   MRampClamp,      \* TRUE (mutant): the shipped linear ramp is computed as min(max(interpolation, initial), final)
+  MCacheKeyXOnly,  \* TRUE (mutant): the operand cache is keyed by x (and t) only: y and z do not take part
+  MConstDtype,     \* TRUE (mutant): tdgl.Constant takes the dtype of x: a fractional value is truncated at integer-typed points
   MCacheKeyBuffer, \* TRUE (mutant): the operand cache identifies an array argument by the memory it occupies, not by its content
   MCacheKeyTime    \* TRUE: the operand cache is keyed by the time argument as well (pinned and repaired)
 
@@ -106,6 +109,7 @@ T1 == T0 \cup {n \in {Node(o, a, b) : o \in Ops, a \in T0, b \in T0} : ~(IsNum(n
 
 LeafCode(k) == CASE k = "P2" -> 1 [] k = "P3" -> 2 [] k = "PT" -> 3 [] k = "I" -> 4 [] k = "F" -> 5
                  [] k = "P2b" -> 6 [] k = "P3b" -> 7 [] k = "PTb" -> 8
+                 [] k = "K2" -> 13 [] k = "K3" -> 14 [] k = "KC2" -> 15 [] k = "KC3" -> 16
                  [] k = "RU" -> 9 [] k = "RD" -> 10 [] k = "CF" -> 11 [] k = "CL" -> 12
 OpCode(o) == CASE o = "add" -> 1 [] o = "sub" -> 2 [] o = "mul" -> 3 [] o = "div" -> 4 [] o = "pow" -> 5
 RECURSIVE H(_)
@@ -163,26 +167,47 @@ ShipSub(tr, v) == ShipSubL(tr, v, Deg1(tr))
 HasShipped(tr) == Kinds(tr) \cap {"RU", "RD", "CF", "CL"} # {}
 Shippable(tr) == "P3" \in Kinds(tr) /\ Kinds(tr) \cap {"P2", "P2b", "P3b", "PTb"} = {} /\ ~HasShipped(tr)
 VecArg(tr) == IF "CL" \in Kinds(tr) THEN "vec2" ELSE "vec"
+\* (4) the shipped constant leaf in place of the float: F -> Constant(0.5, dim) (variant 1) or, where the expression is linear and
+\*     homogeneous in it, Constant(0.5 + 1j, dim) (variant 2); dim = the dimension of the expression's other leaves
+ConstKinds == {"K2", "K3", "KC2", "KC3"}
+HasConst(tr) == Kinds(tr) \cap ConstKinds # {}
+NoF(tr) == "F" \notin Kinds(tr)
+RECURSIVE Deg1F(_)
+Deg1F(tr) == IF IsLeaf(tr) THEN tr.k = "F"
+             ELSE CASE tr.op \in {"add", "sub"} -> Deg1F(tr.l) /\ Deg1F(tr.r)
+                    [] tr.op = "mul" -> (Deg1F(tr.l) /\ NoF(tr.r)) \/ (NoF(tr.l) /\ Deg1F(tr.r))
+                    [] tr.op = "div" -> Deg1F(tr.l) /\ NoF(tr.r)
+                    [] OTHER -> FALSE
+RECURSIVE KonstSubL(_, _)
+KonstSubL(tr, k) == IF IsLeaf(tr) THEN (IF tr.k = "F" THEN Leaf(k) ELSE tr) ELSE Node(tr.op, KonstSubL(tr.l, k), KonstSubL(tr.r, k))
+KonstSub(tr, v) == LET two == "P2" \in Kinds(tr) IN
+                   KonstSubL(tr, IF v = 2 /\ Deg1F(tr) THEN (IF two THEN "KC2" ELSE "KC3") ELSE (IF two THEN "K2" ELSE "K3"))
+Konstable(tr) == "F" \in Kinds(tr) /\ ~HasTwin(tr) /\ ~HasShipped(tr) /\ ~HasConst(tr)
 
 -----------------------------------------------------------------------------
 (* PROPERTY: pointwise semantics                                           *)
 (* evaluation points (x, y, z) and times, in units of 1/Q                  *)
 Pts == << [x |-> 1 * Q, y |-> 0,      z |-> 1 * Q],
           [x |-> 96,    y |-> 32,     z |-> 0],
-          [x |-> 0,     y |-> 1 * Q,  z |-> (-1) * Q] >>
+          [x |-> 0,     y |-> 1 * Q,  z |-> (-1) * Q],
+          \* 4-6: the same x and z, y + 1 (a parallel line cut);  7-9: the same x and y, z + 0.5 (the same footprint, other height)
+          [x |-> 1 * Q, y |-> 1 * Q,  z |-> 1 * Q], [x |-> 96, y |-> 96, z |-> 0], [x |-> 0, y |-> 2 * Q, z |-> (-1) * Q],
+          [x |-> 1 * Q, y |-> 0,      z |-> 96],    [x |-> 96, y |-> 32, z |-> 32], [x |-> 0, y |-> 1 * Q, z |-> -32],
+          \* 10-12: integer coordinates (delivered as integer-typed scalars / arrays)
+          [x |-> 1 * Q, y |-> 0, z |-> 1 * Q], [x |-> 2 * Q, y |-> 1 * Q, z |-> 0], [x |-> 0, y |-> 1 * Q, z |-> (-1) * Q] >>
 Times == {0, 1 * Q, 3 * Q}
 \* the leaves used by the binding:  P2 = x + 2y - a (a=2),  P3 = x - y + z + b (b=1),
-\* PT = x + 2z - c + t (c=1),  I = 2,  F = 0.5
-\* vector-valued leaves are evaluated per component: p in 4..12 is (point, component) = ((p - 4) \div 3 + 1, (p - 4) % 3 + 1)
-PtOf(p) == IF p <= 3 THEN p ELSE ((p - 4) \div 3) + 1
-CompOf(p) == IF p <= 3 THEN 0 ELSE ((p - 4) % 3) + 1
+\* PT = x + y + 2z - c + t (c=1),  I = 2,  F = 0.5
+\* vector-valued leaves are evaluated per component: p in 101..109 is (point, component) = ((p - 101) \div 3 + 1, (p - 101) % 3 + 1)
+PtOf(p) == IF p <= 12 THEN p ELSE ((p - 101) \div 3) + 1
+CompOf(p) == IF p <= 12 THEN 0 ELSE ((p - 101) % 3) + 1
 \* the documented linear ramp: initial before tmin, final from tmax on, linear in between (written here, not taken from the package)
 Ramp(t, tmin, tmax, ini, fin) == IF t < tmin THEN ini
                                  ELSE IF t < tmax THEN ini + ((fin - ini) * (t - tmin)) \div (tmax - tmin) ELSE fin
 LeafVal(k, p, t) ==
   CASE k = "P2" -> Pts[PtOf(p)].x + 2 * Pts[PtOf(p)].y - 2 * Q
     [] k = "P3" -> Pts[PtOf(p)].x - Pts[PtOf(p)].y + Pts[PtOf(p)].z + Q
-    [] k = "PT" -> Pts[PtOf(p)].x + 2 * Pts[PtOf(p)].z - Q + t
+    [] k = "PT" -> Pts[PtOf(p)].x + Pts[PtOf(p)].y + 2 * Pts[PtOf(p)].z - Q + t
     [] k = "I" -> 2 * Q
     [] k = "F" -> Q \div 2
     \* twins: another leaf of the same kind that the library's == cannot tell from the first (same function code and
@@ -190,7 +215,11 @@ LeafVal(k, p, t) ==
     \* but that computes other values:  P2b = P2 - 4,  P3b = P3 + 2,  PTb = PT - 3
     [] k = "P2b" -> Pts[PtOf(p)].x + 2 * Pts[PtOf(p)].y - 2 * Q - 4 * Q
     [] k = "P3b" -> Pts[PtOf(p)].x - Pts[PtOf(p)].y + Pts[PtOf(p)].z + Q + 2 * Q
-    [] k = "PTb" -> Pts[PtOf(p)].x + 2 * Pts[PtOf(p)].z - Q + t - 3 * Q
+    [] k = "PTb" -> Pts[PtOf(p)].x + Pts[PtOf(p)].y + 2 * Pts[PtOf(p)].z - Q + t - 3 * Q
+    \* tdgl.Constant(value, dimensions): K2 / K3 = Constant(0.5, 2 / 3);  KC2 / KC3 = Constant(0.5 + 1j, 2 / 3), counted in units
+    \* of its own (complex) value, in expressions that are linear and homogeneous in it
+    [] k \in {"K2", "K3"} -> Q \div 2
+    [] k \in {"KC2", "KC3"} -> Q
     \* leaves shipped with the package (tdgl.sources), against formulas written here:
     \*   RU = LinearRamp(tmin=0.5, tmax=2.5, initial=-0.5, final=1.5)   RD = LinearRamp(tmin=0.5, tmax=2.5, initial=1, final=0.25)
     \*   CF = ConstantField(2): the vector potential (-(y - yc), x - xc, 0) B/2 of a uniform field B = 2
@@ -220,7 +249,7 @@ TimeDep(tr) == Kinds(tr) \cap TdKinds # {}
 Forms == {"F2", "F3", "F2T", "F3T"}
 FormDim(f) == IF f \in {"F2", "F2T"} THEN 2 ELSE 3
 FormHasT(f) == f \in {"F2T", "F3T"}
-LeafDim(k) == IF k \in {"P2", "P2b"} THEN 2 ELSE 3
+LeafDim(k) == IF k \in {"P2", "P2b", "K2", "KC2"} THEN 2 ELSE 3
 DimsFit(tr, f) == \A k \in Kinds(tr) \ {"I", "F"} : LeafDim(k) = FormDim(f)
 \* "val": must return the pointwise value; "fail": must raise, not return anything;
 \* "either": a time given to an expression without time dependence may be refused or ignored
@@ -234,11 +263,16 @@ Args == {"s1", "s2", "s3", "arr"}
 ArgPts(a) == CASE a = "s1" -> <<1>> [] a = "s2" -> <<2>> [] a = "s3" -> <<3>> [] a = "arr" -> <<1, 2, 3>>
                [] a = "arr2" -> <<3, 1, 2>> [] a = "arr3" -> <<2, 2, 1>>
                \* the (3, 3) array a vector-valued expression returns for the three points, row by row; its x, y columns
-               [] a = "vec" -> <<4, 5, 6, 7, 8, 9, 10, 11, 12>> [] a = "vec2" -> <<4, 5, 7, 8, 10, 11>>
+               [] a = "vec" -> <<101, 102, 103, 104, 105, 106, 107, 108, 109>> [] a = "vec2" -> <<101, 102, 104, 105, 107, 108>>
+               \* only y changed / only z changed with respect to arr;  integer-typed points: as an array, as scalars
+               [] a = "arrY" -> <<4, 5, 6>> [] a = "arrZ" -> <<7, 8, 9>>
+               [] a = "arrI" -> <<10, 11, 12>> [] a = "i1" -> <<10>> [] a = "i2" -> <<11>>
 \* how the points of an array call are DELIVERED over a sequence of calls: array contents arr / arr2 / arr3 (same shape)
 \* in  "b1" an owned buffer overwritten in place between calls | "v1" a slice of a larger base buffer, overwritten in place
 \*   | "s1" a strided view of a base buffer, overwritten in place | "tmp" temporaries created for the call and dropped
-ArrArgs == {"arr", "arr2", "arr3"}
+ArrArgs == {"arr", "arr2", "arr3", "arrY", "arrZ"}
+IntArgs == {"arrI", "i1", "i2"}
+XOf(a) == IF a \in {"arr", "arrY", "arrZ"} THEN "x1" ELSE a       \* contents with the same x coordinates
 VecArgs == {"vec", "vec2"}
 Bufs == {"b1", "v1", "s1", "tmp"}
 EvalAt(tr, a, t) == [n \in 1..Len(ArgPts(a)) |-> Eval(tr, ArgPts(a)[n], t)]
@@ -293,7 +327,8 @@ LibEq(a, b) == IF IsLeaf(a) \/ IsLeaf(b) THEN IsLeaf(a) /\ IsLeaf(b) /\ BaseKind
 \* evaluation as the class does it: both operands are evaluated (a mutant reuses the left value for an "equal" right one)
 \* a leaf as the shipped function computes it (a mutant clamps the interpolated ramp between initial and final)
 MinI(a, b) == IF a < b THEN a ELSE b
-LeafMech(k, p, t) == IF MRampClamp /\ k \in {"RU", "RD"}
+LeafMech(k, p, t) == IF MConstDtype /\ k \in {"K2", "K3"} /\ PtOf(p) \in 10..12 THEN 0
+                     ELSE IF MRampClamp /\ k \in {"RU", "RD"}
                      THEN LET ini == IF k = "RU" THEN -(Q \div 2) ELSE Q
                               fin == IF k = "RU" THEN 3 * (Q \div 2) ELSE Q \div 4
                               v == ini + ((fin - ini) * (t - Q \div 2)) \div (2 * Q)
@@ -330,17 +365,24 @@ Grow == /\ pc = "grow" /\ Level(tree) < MaxLevel /\ GrowsOn(tree)
         /\ UNCHANGED <<pc, orig, copy, pickled, last, ncalls>>
 
 \* the twinned form of an expression with equal operands somewhere (explored next to the expression itself)
-Twin == /\ pc = "grow" /\ HasEqualOperands(tree) /\ ~HasTwin(tree)
+VariantsOf(t) == Level(t) <= 1 \/ VarMod = 1 \/ (H(t) + SampleSeed) % VarMod = 0
+Twin == /\ pc = "grow" /\ HasEqualOperands(tree) /\ ~HasTwin(tree) /\ VariantsOf(tree)
         /\ tree' = Twinned(tree) /\ pc' = "twin"
         /\ UNCHANGED <<orig, copy, pickled, last, ncalls>>
 
 \* the expression on shipped leaves (explored next to the expression itself)
-Ship == /\ pc = "grow" /\ Shippable(tree)
+Ship == /\ pc = "grow" /\ Shippable(tree) /\ VariantsOf(tree)
         /\ \E v \in {1, 2} : tree' = ShipSub(tree, v)
         /\ pc' = "ship"
         /\ UNCHANGED <<orig, copy, pickled, last, ncalls>>
 
-Build == /\ pc \in {"grow", "twin", "ship"} /\ IsParam(tree)
+\* the expression with the shipped constant in place of the float (explored next to the expression itself)
+Konst == /\ pc = "grow" /\ Konstable(tree) /\ VariantsOf(tree)
+         /\ \E v \in {1, 2} : tree' = KonstSub(tree, v)
+         /\ pc' = "konst"
+         /\ UNCHANGED <<orig, copy, pickled, last, ncalls>>
+
+Build == /\ pc \in {"grow", "twin", "ship", "konst"} /\ IsParam(tree)
          /\ IF BuildOK(tree)
             THEN /\ pc' = "built"
                  /\ orig' = [Obj0 EXCEPT !.alive = TRUE, !.td = B2S(TdMech(tree))]
@@ -374,19 +416,21 @@ Variants(tr) == {tr} \cup (IF IsLeaf(tr) THEN T0 \ {Leaf("I"), Leaf("F")}
 \* an array call whose points arrive as content a in buffer b.  A cache that identifies the argument by its memory answers,
 \* for its caching operands, with the value of the content it first saw there at that time
 StaleArg(o, f, b, t, a) == IF MCacheKeyBuffer /\ \E e \in o.bufs : e[1] = f /\ e[2] = b /\ e[3] = t
-                           THEN (CHOOSE e \in o.bufs : e[1] = f /\ e[2] = b /\ e[3] = t)[4] ELSE a
+                           THEN (CHOOSE e \in o.bufs : e[1] = f /\ e[2] = b /\ e[3] = t)[4]
+                           ELSE IF MCacheKeyXOnly /\ \E e \in o.bufs : e[1] = f /\ e[3] = t /\ XOf(e[4]) = XOf(a)
+                           THEN (CHOOSE e \in o.bufs : e[1] = f /\ e[3] = t /\ XOf(e[4]) = XOf(a))[4] ELSE a
 RECURSIVE EvalD(_, _, _, _, _)
 EvalD(tr, pcur, pold, t, root) ==
   IF IsLeaf(tr) THEN (IF tr.k \in TdKinds /\ ~root THEN LeafMech(tr.k, pold, t) ELSE LeafMech(tr.k, pcur, t))
   ELSE ApplyN(tr, EvalD(tr.l, pcur, pold, t, FALSE), EvalD(tr.r, pcur, pold, t, FALSE))
 Deliver(f, t, a, b, fill) ==
-  /\ pc = "built" /\ a \in ArrArgs \cup VecArgs /\ b \in Bufs
+  /\ pc = "built" /\ a \in ArrArgs \cup VecArgs \cup IntArgs /\ b \in Bufs
   /\ fill \subseteq ParamPaths(tree, "o")
   /\ LET sa == StaleArg(orig, f, b, t, a) IN
        last' = [what |-> "deliver", f |-> f, t |-> t, a |-> a, b |-> b, kind |-> Expect(tree, f),
                 vals |-> [n \in 1..Len(ArgPts(a)) |-> EvalD(tree, ArgPts(a)[n], ArgPts(sa)[n], t, TRUE)]]
   /\ orig' = [orig EXCEPT !.filled = orig.filled \cup fill,
-                          !.bufs = IF b # "tmp" /\ Expect(tree, f) = "val" /\ ~\E e \in orig.bufs : e[1] = f /\ e[2] = b /\ e[3] = t
+                          !.bufs = IF (b # "tmp" \/ MCacheKeyXOnly) /\ Expect(tree, f) = "val" /\ ~\E e \in orig.bufs : e[1] = f /\ e[2] = b /\ e[3] = t
                                    THEN orig.bufs \cup {<<f, b, t, a>>} ELSE orig.bufs]
   /\ ncalls' = ncalls + 1
   /\ UNCHANGED <<tree, pc, copy, pickled>>
@@ -433,7 +477,7 @@ ClearCopy ==
 
 \* TDGLSolver.__init__ evaluates the parameter at (x, y, z[, t=0]) and clears its cache; solve() clears it
 \* again and stores the parameter (pickled) in the output file
-AllLeaves3D(tr) == Kinds(tr) \cap {"P2", "P2b"} = {}
+AllLeaves3D(tr) == Kinds(tr) \cap {"P2", "P2b", "K2", "KC2"} = {}
 Solve == /\ pc \in {"built", "cleared", "copied"}
          /\ last' = [what |-> "solve", ok |-> AllLeaves3D(tree) /\ ClearRes(tree, "o").ok, td |-> orig.td]
          /\ pc' = "solved"
@@ -451,6 +495,9 @@ ValForm(f) == Expect(tree, f) = "val" /\ f = (IF TimeDep(tree) THEN "F3T" ELSE I
 \* an expression on shipped leaves: the whole (3, 3) array at each time
 MShipDeliver == pc = "built" /\ HasShipped(tree) /\ ncalls < 1 /\ last.what = "none"
                 /\ \E f \in Forms, t \in Times : ValForm(f) /\ t \in CallTimes(f) /\ Deliver(f, t, VecArg(tree), "tmp", {})
+\* integer-typed points (array and scalars) for an expression on the shipped constant
+MIntDeliver == pc = "built" /\ HasConst(tree) /\ ncalls < 1 /\ last.what = "none"
+               /\ \E f \in Forms, a \in IntArgs : ValForm(f) /\ Deliver(f, IF FormHasT(f) THEN Q ELSE 0, a, "tmp", {})
 MDeliver == pc = "built" /\ ~HasShipped(tree) /\ ncalls < 2 /\ last.what \in {"none", "deliver"}
             /\ \E f \in Forms, a \in ArrArgs :
                   /\ ValForm(f) /\ (last.what = "deliver" => last.a # a)
@@ -460,13 +507,13 @@ MEq == last.what = "none" /\ \E other \in Variants(tree) : Eq(other)
 MPickle == pc = "cleared" /\ Pickle
 MClearCopy == last.what # "clear" /\ ClearCopy
 MSolve == pc = "copied" /\ Solve
-Next == Grow \/ Twin \/ Ship \/ Build \/ MShipDeliver \/ MDeliver \/ MCall \/ MEq \/ Clear \/ MPickle \/ Unpickle \/ MCallCopy \/ MClearCopy \/ MSolve
+Next == Grow \/ Twin \/ Ship \/ Konst \/ Build \/ MShipDeliver \/ MIntDeliver \/ MDeliver \/ MCall \/ MEq \/ Clear \/ MPickle \/ Unpickle \/ MCallCopy \/ MClearCopy \/ MSolve
 
 Spec == Init /\ [][Next]_vars
 
 -----------------------------------------------------------------------------
 (* PROPERTY clauses (C16; PickleRoundTrip also C14)                        *)
-TypeOK == /\ pc \in {"grow", "twin", "ship", "built", "failed", "cleared", "pickled", "copied", "solved"}
+TypeOK == /\ pc \in {"grow", "twin", "ship", "konst", "built", "failed", "cleared", "pickled", "copied", "solved"}
           /\ Level(tree) <= MaxLevel /\ ncalls \in 0..2
 
 \* a call that must answer answers the pointwise combination of its operands' values; a call that must
@@ -489,7 +536,7 @@ SolverAcceptsComposite == last.what = "solve" => (last.ok <=> AllLeaves3D(tree))
 \* which trees the binding hands to the real solver (leaves concretised as a vector potential, a scalar
 \* ramp and numbers): three-dimensional leaves, a field somewhere, and operators that keep it finite
 OkOp(n) == n.op \in {"add", "sub", "mul"} \/ (n.op = "div" /\ IsNum(n.r))
-SolverDomain(tr) == /\ AllLeaves3D(tr) /\ "P3" \in Kinds(tr) /\ ~HasTwin(tr) /\ ~HasShipped(tr)
+SolverDomain(tr) == /\ AllLeaves3D(tr) /\ "P3" \in Kinds(tr) /\ ~HasTwin(tr) /\ ~HasShipped(tr) /\ ~HasConst(tr)
                     /\ \/ IsLeaf(tr)
                        \/ /\ OkOp(tr)
                           /\ \A c \in {tr.l, tr.r} : IsLeaf(c) \/ (Level(c) = 1 /\ OkOp(c))
@@ -498,7 +545,7 @@ SolverDomain(tr) == /\ AllLeaves3D(tr) /\ "P3" \in Kinds(tr) /\ ~HasTwin(tr) /\ 
 TimeSeq == <<0, 1 * Q, 3 * Q>>
 Emit == (pc \in {"built", "failed"} /\ last.what = "none") =>
           PrintT(ToJson([tree |-> tree, td |-> TimeDep(tree), level |-> Level(tree), h |-> H(tree),
-                         solver |-> SolverDomain(tree), twin |-> HasTwin(tree), ship |-> HasShipped(tree),
+                         solver |-> SolverDomain(tree), twin |-> HasTwin(tree), ship |-> HasShipped(tree), konst |-> HasConst(tree),
                          eqs |-> IF HasTwin(tree) THEN {} ELSE SameFlat(tree),
                          expect |-> [f \in Forms |-> Expect(tree, f)],
                          vals |-> [f \in Forms |-> [n \in 1..3 |-> [a \in Args |-> EvalAt(tree, a, TimeSeq[n])]]]]))
